@@ -176,10 +176,12 @@ struct Outcome {
 const N_INSTR: usize = 4;
 
 fn instruments() -> IndexedInstruments {
+    // index order (exchange id order, then definition) deliberately differs from the alphabetical order of the
+    // instrument / asset names: `ExchangeId::Mock` sorts BEFORE BinanceSpot while "mock-..." sorts after
     IndexedInstruments::new([
-        fixtures::spot(ExchangeId::Okx, "btc", "usdt"),
+        fixtures::spot(ExchangeId::Mock, "btc", "usdt"),
         fixtures::spot(ExchangeId::BinanceSpot, "btc", "usdt"),
-        fixtures::spot(ExchangeId::Okx, "eth", "usdt"),
+        fixtures::spot(ExchangeId::Mock, "eth", "usdt"),
         fixtures::spot(ExchangeId::BinanceSpot, "eth", "btc"),
     ])
 }
@@ -216,17 +218,26 @@ fn run_engine(fills: &[Fill]) -> Result<Outcome, V> {
     let mut exits: Vec<Vec<Exit>> = vec![vec![]; N_INSTR];
     let mut last_balance: Vec<Option<(Decimal, Decimal)>> = vec![None; ins.assets().len()];
     let mut steps = 0;
+    let (mut interim_checks, mut interim_reports) = (0u64, 0u64);
     // a second summary generator, created up front and maintained through the public
     // `update_from_position` / `update_from_balance` API (keyed by index), as an audit consumer would
     let mut shadow = engine.trading_summary_generator(Decimal::ZERO);
     for (idx, f) in fills.iter().enumerate() {
-        let ev: EngineEvent = fixtures::ev_account(exch_of[f.instr], barter_execution::AccountEventKind::Trade(mk_trade(f, idx, InstrumentIndex(f.instr))));
+        // the two venues' clocks are skewed against each other: exit times of different instruments interleave
+        // (exchange time of instrument k lags by k x 150 s), as they do with several account streams
+        let mut trade = mk_trade(f, idx, InstrumentIndex(f.instr));
+        trade.time_exchange = t(1_000_000 + idx as i64 * 60_000 - f.instr as i64 * 150_000);
+        let ev: EngineEvent = fixtures::ev_account(exch_of[f.instr], barter_execution::AccountEventKind::Trade(trade));
         let audit = catch(|| engine.process(ev)).map_err(|m| ("panic_in_engine_trade_processing", m))?;
         steps += 1;
         if let EngineAudit::Process(pa) = audit {
             for o in pa.outputs.into_iter() {
                 if let EngineOutput::PositionExit(e) = o {
                     exits[e.instrument.index()].push(exit_of(&e));
+                    // the consumer keeps the summary's clock current (sometimes ahead of the exit's exchange time)
+                    if idx % 3 == 0 {
+                        shadow.update_time_now(t(1_000_000 + idx as i64 * 60_000 + 1_000));
+                    }
                     catch(|| shadow.update_from_position(&e)).map_err(|m| ("panic_in_trading_summary_update", m))?;
                 }
             }
@@ -247,9 +258,22 @@ fn run_engine(fills: &[Fill]) -> Result<Outcome, V> {
         }
         last_balance[a] = Some((total, free));
         steps += 1;
+        // interim reports: generating a summary must not disturb the generator (it keeps being updated)
+        if idx % 11 == 10 {
+            let interim = catch(|| shadow.generate(Daily)).map_err(|m| ("panic_in_trading_summary_generate", m))?;
+            for (i, keyed) in ins.instruments().iter().enumerate() {
+                let name = &keyed.value.name_internal;
+                let Some(sheet) = interim.instruments.get(name) else {
+                    return Err(("trading_summary_missing_instrument", format!("maintained generator, interim report after fill #{idx}: {name}")));
+                };
+                interim_checks += judge_sheet(&format!("maintained summary, interim report after fill #{idx} [{name}] (instrument {i})"), sheet, &exits[i]).map_err(|(_, dd)| ("maintained_trading_summary_entry_reflects_another_history", dd))?;
+            }
+            interim_reports += 1;
+        }
     }
     let summary = catch(|| engine.trading_summary_generator(Decimal::ZERO).generate(Daily)).map_err(|m| ("panic_in_trading_summary_generate", m))?;
-    let mut checks = 0;
+    let mut checks = interim_checks;
+    let _ = interim_reports;
     if summary.instruments.len() != N_INSTR || summary.assets.len() != ins.assets().len() {
         return Err(("trading_summary_entry_count_wrong", format!("instruments {} assets {}", summary.instruments.len(), summary.assets.len())));
     }
